@@ -769,6 +769,32 @@ func (m *endpointManager) resolveWorkloadEndpoints() {
 		delete(m.activeWlEndpoints, id)
 	}
 
+	// promoteShadowedEndpoint is called when an interface name is given up by its active
+	// endpoint (because that endpoint was removed or moved to another interface name).  If
+	// there are shadowed endpoints waiting for that name, it queues the preferred one for
+	// (re-)processing.
+	promoteShadowedEndpoint := func(logCxt *log.Entry, ifaceName string) {
+		bestShadowedId := types.WorkloadEndpointID{}
+		for sId, sWorkload := range m.shadowedWlEndpoints {
+			logCxt.Infof("Shadowed workload %v", sWorkload)
+			if _, pending := m.pendingWlEpUpdates[sId]; pending {
+				// A newer update or removal of this endpoint is already queued in
+				// this batch; it will be resolved from that, don't overwrite it
+				// with the stale shadowed copy.
+				continue
+			}
+			if sWorkload.Name == ifaceName {
+				if bestShadowedId.EndpointId == "" || wlIdsAscending(&sId, &bestShadowedId) {
+					bestShadowedId = sId
+				}
+			}
+		}
+		if bestShadowedId.EndpointId != "" {
+			m.pendingWlEpUpdates[bestShadowedId] = m.shadowedWlEndpoints[bestShadowedId]
+			delete(m.shadowedWlEndpoints, bestShadowedId)
+		}
+	}
+
 	// Repeat the following loop until the pending update map is empty.  Note that it's possible
 	// for an endpoint deletion to add a further update into the map (for a previously shadowed
 	// endpoint), so we cannot assume that a single iteration will always be enough.
@@ -818,6 +844,9 @@ func (m *endpointManager) resolveWorkloadEndpoints() {
 					m.wlIfaceNamesToReconfigure.Discard(oldWorkload.Name)
 					m.linkAddrsMgr.RemoveLinkLocalAddress(oldWorkload.Name)
 					delete(m.activeWlIfaceNameToID, oldWorkload.Name)
+					// The old interface name is free now; an endpoint that was shadowed
+					// on it should take over.
+					promoteShadowedEndpoint(logCxt, oldWorkload.Name)
 				}
 				adminUp := workload.State == "active"
 				m.updateWorkloadARPChains(id, workload)
@@ -868,26 +897,7 @@ func (m *endpointManager) resolveWorkloadEndpoints() {
 				if oldWorkload != nil {
 					// Check for another endpoint with the same interface name,
 					// that should now become active.
-					bestShadowedId := types.WorkloadEndpointID{}
-					for sId, sWorkload := range m.shadowedWlEndpoints {
-						logCxt.Infof("Old workload %v", oldWorkload)
-						logCxt.Infof("Shadowed workload %v", sWorkload)
-						if _, pending := m.pendingWlEpUpdates[sId]; pending {
-							// A newer update or removal of this endpoint is already queued in
-							// this batch; it will be resolved from that, don't overwrite it
-							// with the stale shadowed copy.
-							continue
-						}
-						if sWorkload.Name == oldWorkload.Name {
-							if bestShadowedId.EndpointId == "" || wlIdsAscending(&sId, &bestShadowedId) {
-								bestShadowedId = sId
-							}
-						}
-					}
-					if bestShadowedId.EndpointId != "" {
-						m.pendingWlEpUpdates[bestShadowedId] = m.shadowedWlEndpoints[bestShadowedId]
-						delete(m.shadowedWlEndpoints, bestShadowedId)
-					}
+					promoteShadowedEndpoint(logCxt, oldWorkload.Name)
 				}
 			}
 
